@@ -1,4 +1,4 @@
-import RSocketModel.Engine.Invariants
+import RSocketModel.Proofs.C12Lemmas
 /-!
 # C12 — Hostile input and failing application code are contained
 
@@ -8,124 +8,7 @@ only on its own stream), *containment of application failures* and *liveness aft
 -/
 namespace RSocketModel.Engine
 
-/-- every frame queued while processing a received frame is on that frame's stream -/
-theorem frameReceived_sends (st : State) (oid : Nat) (s : Stream) (f : Frame) :
-    ∀ g, Out.send g ∈ (frameReceived st oid s f).2 → g.sid = f.sid := by
-  unfold frameReceived
-  cases s.kind <;> simp only <;> cases f.ty <;> simp only <;> (repeat' split) <;> simp [mkError]
-
-theorem handleByType_sends (st : State) (f : Frame) (b : Behaviour) (hd : f.sid = 0 ∨ isInitiate f.ty = true) :
-    ∀ g, Out.send g ∈ (handleByType st f b).2 → g.sid = f.sid := by
-  unfold handleByType
-  cases hty : f.ty <;> simp only
-  case requestResponse => split <;> (try cases b) <;> simp only <;> (repeat' split) <;> simp_all [mkError]
-  case requestStream => split <;> (try cases b) <;> simp only <;> (repeat' split) <;> simp_all [mkError]
-  case requestFnf => split <;> (try cases b) <;> simp_all [mkError]
-  case requestChannel =>
-    split
-    · simp [mkError]
-    · cases b <;> simp only <;> (try simp [mkError])
-      rename_i hasPub hasSub
-      split
-      · simp [mkError]; omega
-      · cases hasPub <;> cases hasSub <;> cases f.complete <;> simp [mkPayload]
-  case setup =>
-    have h0 : f.sid = 0 := by rcases hd with h | h; exact h; simp [hty, isInitiate] at h
-    (repeat' split) <;> simp_all [mkError]
-  case metadataPush =>
-    have h0 : f.sid = 0 := by rcases hd with h | h; exact h; simp [hty, isInitiate] at h
-    cases b <;> simp_all [mkError]
-  case resume =>
-    have h0 : f.sid = 0 := by rcases hd with h | h; exact h; simp [hty, isInitiate] at h
-    simp_all [mkError]
-  case keepalive => split <;> simp
-  all_goals simp
-
 /-! ### the table entry of another stream is not touched -/
-
-theorem find_filter_ne (l : List (Nat × Nat)) (sid j : Nat) (h : j ≠ sid) :
-    (l.filter (·.1 != sid)).find? (·.1 == j) = l.find? (·.1 == j) := by
-  induction l with
-  | nil => rfl
-  | cons p rest ih =>
-    by_cases hp : p.1 = sid
-    · have hb : (p.1 != sid) = false := by simp [hp]
-      have hj : (p.1 == j) = false := by simp; omega
-      simp only [List.filter_cons, hb, Bool.false_eq_true, if_false, List.find?_cons, hj]
-      exact ih
-    · have hb : (p.1 != sid) = true := by simp [hp]
-      simp only [List.filter_cons, hb, if_true, List.find?_cons]
-      cases hpj : (p.1 == j)
-      · exact ih
-      · rfl
-
-@[simp] theorem oidOf_setObj (st : State) (oid : Nat) (s : Stream) (j : Nat) : (st.setObj oid s).oidOf j = st.oidOf j := rfl
-
-theorem oidOf_finish_ne (st : State) (sid j : Nat) (h : j ≠ sid) : (st.finish sid).oidOf j = st.oidOf j := by
-  simp only [State.oidOf, State.finish]
-  rw [find_filter_ne _ _ _ h]
-
-theorem oidOf_unregister_ne (st : State) (sid j : Nat) (h : j ≠ sid) : (st.unregister sid).oidOf j = st.oidOf j :=
-  oidOf_finish_ne st sid j h
-
-theorem oidOf_markChannel_ne (st : State) (oid : Nat) (s : Stream) (r t : Bool) (j : Nat) (h : j ≠ s.sid) :
-    (markChannel st oid s r t).oidOf j = st.oidOf j := by
-  simp only [markChannel]
-  split
-  · rw [oidOf_finish_ne _ _ _ h]; rfl
-  · rfl
-
-theorem oidOf_register_ne (st : State) (s : Stream) (j : Nat) (h : j ≠ s.sid) : (st.register s).1.oidOf j = st.oidOf j := by
-  simp only [State.oidOf, State.register, List.find?_append]
-  rw [find_filter_ne _ _ _ h]
-  have : ¬ (s.sid = j) := fun e => h e.symm
-  cases st.table.find? (·.1 == j) <;> simp [this]
-
-theorem oidOf_frameReceived_ne (st : State) (oid : Nat) (s : Stream) (f : Frame) (j : Nat) (h : j ≠ s.sid) :
-    (frameReceived st oid s f).1.oidOf j = st.oidOf j := by
-  unfold frameReceived
-  cases s.kind <;> simp only <;> cases f.ty <;> simp only <;> (repeat' split) <;>
-    simp [oidOf_finish_ne _ _ _ h, oidOf_markChannel_ne _ _ _ _ _ _ h]
-
-theorem oidOf_cacheAppend (st : State) (f : Frame) (j : Nat) : (cacheAppend st f).1.oidOf j = st.oidOf j := by
-  unfold cacheAppend
-  simp only
-  (repeat' split) <;> rfl
-
-theorem oidOf_handleByType_ne (st : State) (f : Frame) (b : Behaviour) (j : Nat) (h : j ≠ f.sid) :
-    (handleByType st f b).1.oidOf j = st.oidOf j := by
-  have hr : ∀ s : Stream, s.sid = f.sid → (st.register s).1.oidOf j = st.oidOf j :=
-    fun s hs => oidOf_register_ne st s j (by rw [hs]; exact h)
-  unfold handleByType
-  cases f.ty <;> simp only
-  case requestResponse => split <;> (try cases b) <;> simp only <;> (repeat' split) <;> (first | rfl | exact hr _ rfl)
-  case requestStream => split <;> (try cases b) <;> simp only <;> (repeat' split) <;> (first | rfl | exact hr _ rfl)
-  case requestFnf => split <;> (try cases b) <;> rfl
-  case setup => (repeat' split) <;> rfl
-  case metadataPush => cases b <;> rfl
-  case requestChannel =>
-    split
-    · rfl
-    · cases b <;> simp only <;> (try rfl)
-      rename_i hasPub hasSub
-      split
-      · rfl
-      · have hm : ∀ (st' : State) (oid : Nat) (s : Stream) (r t : Bool), s.sid = f.sid →
-            (markChannel st' oid s r t).oidOf j = st'.oidOf j :=
-          fun st' oid s r t hs => oidOf_markChannel_ne st' oid s r t j (by rw [hs]; exact h)
-        generalize hreg : st.register { kind := .chResp, sid := f.sid, hasPub := hasPub, subscribed := hasSub, setupDone := true } = r
-        have h0 : r.1.oidOf j = st.oidOf j := by rw [← hreg]; exact hr _ rfl
-        have ho : r.1.obj r.2 = some { kind := .chResp, sid := f.sid, hasPub := hasPub, subscribed := hasSub, setupDone := true } := by
-          rw [← hreg]; exact obj_register st _
-        rcases r with ⟨st0, oid⟩
-        simp only at h0 ho ⊢
-        cases hasSub <;> cases hasPub <;> cases f.complete <;>
-          simp [ho, markChannel_obj, hm, h0]
-  all_goals rfl
-
-theorem oidOf_stopOne_ne (st : State) (sid oid j : Nat) (h : j ≠ sid) : (stopOne st sid oid).1.oidOf j = st.oidOf j := by
-  unfold stopOne
-  (repeat' split) <;> simp [oidOf_finish_ne _ _ _ h, oidOf_unregister_ne _ _ _ h]
 
 /-! ### property theorems -/
 
